@@ -106,7 +106,7 @@ def enc_plan_from_call(formatter, opts):
             ua.append("p," + xt.enc_str(u))
         else:
             ua.append("t," + xt.enc_str(u[0]) + "," + xt.enc_str(u[1]))
-    ign = [xt.enc_str(x) for x in opts["ignored_attrs"]]
+    ign = [xt.enc_str(x) for x in opts.get("ignored_attrs", ["<missing>"])]
     F = opts["F"]
     pretty = getattr(formatter, "pretty_print", None)
     return (
@@ -208,17 +208,26 @@ def _chunk(seed, lo, hi, extra):
             uas = [] if a["uq"] is None else [x if "@" not in x else x.split("@", 1) for x in a["uq"].split(",")]
             api_opts = {"ignored_attrs": [] if a["ig"] is None else a["ig"].split(","), "ratio_mode": a["ratio"], "F": a["F"],
                         "fast_match": a["fast"], "best_match": a["best"], "uniqueattrs": uas}
+            opts_before = repr(sorted(api_opts.items(), key=str))
+            ignored = tuple(api_opts["ignored_attrs"])
             try:
                 api = main.diff_files(lf, rf, diff_options=api_opts, formatter=fm(normalize=normalize, pretty_print=a["pp"]))
                 if buf.getvalue() != api + "\n":
                     st.failures.append({"sig": "C15/command-output-differs-from-file-api", **desc2})
+                # the same options object handed to a second entry point must give the same answer
+                with open(lf, "rb") as f1, open(rf, "rb") as f2:
+                    api2 = main.diff_texts(f1.read(), f2.read(), diff_options=api_opts, formatter=fm(normalize=normalize, pretty_print=a["pp"]))
+                if api2 != api:
+                    st.failures.append({"sig": "C15/second-call-with-same-options-differs", **desc2})
             except Exception as e:  # noqa
                 st.failures.append({"sig": f"C15/file-api-raises/{real.exc_sig(e)}", **desc2})
+            if repr(sorted(api_opts.items(), key=str)) != opts_before:
+                st.failures.append({"sig": "C15/api-modifies-the-options-it-is-given", **desc2})
             # --check: 1 iff asked and the documents differ under the parser flag in effect
             parser = etree.XMLParser(remove_blank_text=bool(normalize & 1))
             pl = xt.from_lxml(etree.parse(lf, parser).getroot())
             pr = xt.from_lxml(etree.parse(rf, parser).getroot())
-            differ = xt.doc_eq(pl, pr, ignored=tuple(api_opts["ignored_attrs"])) is not None
+            differ = xt.doc_eq(pl, pr, ignored=ignored) is not None
             want_rc = 1 if (a["chk"] and differ) else None
             if rc != want_rc:
                 st.failures.append({"sig": f"C15/check-exit-status/{'reported' if rc else 'missed'}/{a['fmt']}", "rc": rc, "documents_differ": differ, **desc2})
